@@ -187,3 +187,5 @@ for _op in ('expand_position', 'close_full', 'close_partial', 'emergency_open'):
                                    'weight(pa) by rounding): the total weight never drops by more than the users weights do, so the total keeps covering the sum' % _op,
                bounds='state of C05; alice holds one position filled in two pieces with symbolic sizes; symbolic amounts', covers=['ok'],
                replay=_replay_w(_op))(_ob_weights(_op, pieces=2))
+
+from . import lockdep   # noqa: E402,F401  (cross-contract locked-deposit obligations registered for this property)
